@@ -462,6 +462,9 @@ static void run_nosilent(int which)
         int nl = std_lengths(&c, lens, kinds, MAXSTR, 2);
         /* plus the two degenerate objects: empty (payload size 0, the value sizes are divided by) and a single byte; one case in eight */
         int ndeg = 0; if (nl == 2) { lens[nl] = 0; kinds[nl++] = DATA_RANDOM; lens[nl] = 1; kinds[nl++] = DATA_FF; ndeg = 2; }
+        /* and one whose fragments hold eleven words (44 bytes for 4-byte words: more than one 16-byte vector, and a tail that is
+         * neither a multiple of 16 nor of 8) */
+        if (ndeg) { cfg_use(&c); lens[nl] = 10 * (uint64_t)c.k * (uint64_t)ref_word_bytes(c.be) + 1; kinds[nl++] = DATA_RANDOM; }
         ctx_t x;
         if (ctx_open(&x, &c, lens, kinds, nl) == 0) {
             int n = cfg_n(&c);
@@ -494,7 +497,7 @@ static void run_nosilent(int which)
             for (int e = 0; e < np; e++) {
                 uint32_t present = pm[e];
                 int si = e % x.nstr;
-                if (ndeg && x.nstr == 4) si = e % 8 == 7 ? 2 + ((e / 8) & 1) : e % 2;
+                if (ndeg && x.nstr == 5) si = e % 8 == 7 ? 2 + ((e / 8) & 1) : (e % 8 == 2 || e % 8 == 5) ? 4 : e % 2;
                 int p = (e % 11 == 6) ? 6 : (e % 5 == 4) ? 4 : ((e % 7 == 3) ? 3 : (e % 3 == 1 ? 2 : 0));
                 char em[128]; mask_str(full & ~present, n, em, sizeof em);
                 int miss = n - __builtin_popcount(present);
@@ -668,6 +671,41 @@ static void run_xor(void)
                     free(xc);
                 }
             }
+            mon_end();
+        }
+    }
+    /* (e) fragments whose payload is a large power of two (64 KiB, 128 KiB; thorough: 256 KiB, 1 MiB) - sizes at which region
+     * loops working in blocks have no remainder: a parity rebuilt while a data fragment of its equation is lost as well (the
+     * path that re-encodes parity after decoding), with one and with two parities lost, and a plain decode of the same set */
+    for (int t = 0; t < xor_ntables; t++) {
+        const xor_table_t *g = &xor_tables[t];
+        static const uint64_t pays_q[] = { 65536, 131072 }, pays_t[] = { 65536, 131072, 262144, 1048576 };
+        const uint64_t *pays = MO.thorough ? pays_t : pays_q; int npay = MO.thorough ? 4 : 2;
+        for (int pi = 0; pi < npay; pi++) {
+            if (!mon_case("flat_xor_hd|k=%d,m=%d,hd=%d|payload=%llu|parity-rebuilt-with-its-data-lost", g->k, g->m, g->hd, (unsigned long long)pays[pi])) continue;
+            cfg_t c = { EC_BACKEND_FLAT_XOR_HD, g->k, g->m, g->hd, 0, CHKSUM_NONE }; int n = g->k + g->m;
+            int d = lec_create(&c); uint64_t len = (uint64_t)g->k * pays[pi]; uint8_t *data = malloc(len); rng_t r; rng_seed(&r, MO.seed, 8800 + (uint64_t)t * 8 + (uint64_t)pi); rng_fill(&r, data, len);
+            stripe_t st;
+            if (d <= 0 || stripe_make(&st, d, &c, data, len) != 0) { mon_viol("C05", "setup-failed", "create/encode of a %llu-byte object failed", (unsigned long long)len); if (d > 0) liberasurecode_instance_destroy(d); free(data); mon_end(); continue; }
+            if (st.flen != pays[pi] + 80) mon_viol("C05", "payload-size", "fragment length %llu, expected %llu", (unsigned long long)st.flen, (unsigned long long)pays[pi] + 80);
+            uint8_t *o = malloc(st.flen);
+            for (int v = 0; v < 3; v++) {
+                int p = v == 1 ? g->m - 1 : 0, p2 = (p + 1) % g->m; int dd = __builtin_ctz(g->parity_bms[p]);
+                if (v == 2 && g->hd < 4) continue;
+                uint32_t er = 1u << (g->k + p) | 1u << dd; if (v == 2) er |= 1u << (g->k + p2);
+                char *lst[32]; int cnt = 0; for (int f = 0; f < n; f++) if (!(er >> f & 1)) lst[cnt++] = (char *)st.frag[f];
+                for (int f = 0; f < n; f++) if (er >> f & 1) {
+                    memset(o, 0x3C, st.flen);
+                    int rc = liberasurecode_reconstruct_fragment(d, lst, cnt, st.flen, f, (char *)o);
+                    mon_count("evaluations", 1); mon_count("large_pow2_payload_reconstructs", 1);
+                    if (rc != 0 || memcmp(o, st.frag[f], st.flen)) mon_viol("C05", "reconstruct-wrong-bytes", "payload %llu, erased 0x%x: reconstruct(%d) rc=%d%s", (unsigned long long)pays[pi], er, f, rc, rc ? "" : ", wrong fragment");
+                }
+                char *out = NULL; uint64_t ol = 0; int rc = liberasurecode_decode(d, lst, cnt, st.flen, 0, &out, &ol);
+                if (rc != 0 || ol != len || memcmp(out, data, len)) mon_viol("C05", "decode-wrong-bytes", "payload %llu, erased 0x%x: decode rc=%d%s", (unsigned long long)pays[pi], er, rc, rc ? "" : ", wrong bytes");
+                if (rc == 0) liberasurecode_decode_cleanup(d, out);
+            }
+            free(o); stripe_free(&st); free(data); liberasurecode_instance_destroy(d);
+            mon_distinct("nontrivial", mon_hash_u64((uint64_t)t * 8 + (uint64_t)pi, 8801));
             mon_end();
         }
     }
@@ -1739,6 +1777,59 @@ static void run_instance_churn(void)
     }
 }
 
+/* C04 (and C01): instances created at the same moment by several threads while NO instance of the backend exists - the first
+ * arrival builds whatever the backend shares (arithmetic tables), the others must not compute their generator from a table
+ * that is still being filled.  Each thread then encodes through its instance; the stripe is compared with the model and
+ * decoded through ANOTHER thread's instance with data lost.  The oracle is the closed-form model, not a race detector. */
+typedef struct { pthread_barrier_t *bar; cfg_t c; int desc; int round; int id; } cfc_t;
+static void *cfc_main(void *v)
+{
+    cfc_t *a = v;
+    pthread_barrier_wait(a->bar);
+    a->desc = lec_create(&a->c);
+    return NULL;
+}
+static void run_concurrent_first_creates(void)
+{
+    noise_stop();
+    static const cfg_t shapes[] = { { EC_BACKEND_LIBERASURECODE_RS_VAND, 10, 4, 4, 0, CHKSUM_NONE }, { EC_BACKEND_LIBERASURECODE_RS_VAND, 4, 2, 2, 0, CHKSUM_CRC32 }, { EC_BACKEND_ISA_L_RS_VAND, 6, 3, 3, 0, CHKSUM_NONE }, { EC_BACKEND_JERASURE_RS_VAND, 4, 2, 2, 0, CHKSUM_NONE }, { EC_BACKEND_FLAT_XOR_HD, 10, 5, 3, 0, CHKSUM_NONE } };
+    int rounds = MO.thorough ? 400 : 48;
+    for (size_t si = 0; si < sizeof shapes / sizeof shapes[0]; si++) {
+        if (!liberasurecode_backend_available((ec_backend_id_t)shapes[si].be)) continue;
+        for (int round = 0; round < rounds; round++) {
+            if (!mon_case("%s|first-instances-created-concurrently|round=%d", be_name(shapes[si].be), round)) continue;
+            enum { NT = 3 }; pthread_barrier_t bar; pthread_barrier_init(&bar, NULL, NT);
+            cfc_t a[NT]; pthread_t th[NT];
+            for (int t = 0; t < NT; t++) { a[t] = (cfc_t){ &bar, shapes[si], -1, round, t }; if (t == 2 && shapes[si].k > 4) { a[t].c.k -= 1; a[t].c.m += 1; a[t].c.hd = a[t].c.be == EC_BACKEND_FLAT_XOR_HD ? a[t].c.hd : a[t].c.m; if (a[t].c.be == EC_BACKEND_FLAT_XOR_HD) a[t].c = shapes[si]; } pthread_create(&th[t], NULL, cfc_main, &a[t]); }
+            for (int t = 0; t < NT; t++) pthread_join(th[t], NULL);
+            pthread_barrier_destroy(&bar);
+            char what[160];
+            for (int t = 0; t < NT; t++) {
+                if (a[t].desc <= 0) { mon_viol(PROP, "concurrent-create-failed", "round %d thread %d: create rc=%d", round, t, a[t].desc); continue; }
+                snprintf(what, sizeof what, "instance created by thread %d of %d concurrent first creates of %s, round %d", t, NT, be_name(shapes[si].be), round);
+                lec_use_instance(&a[t].c, a[t].desc, (uint64_t)(round * 4 + t), what);
+            }
+            /* a stripe written through one instance is read through the twin created by the other thread */
+            if (a[0].desc > 0 && a[1].desc > 0) {
+                const cfg_t *c = &a[0].c; int n = c->k + c->m; uint64_t len = (uint64_t)c->k * 40 + 7; uint8_t *data = malloc(len); rng_t r; rng_seed(&r, MO.seed, 991 + (uint64_t)round); rng_fill(&r, data, len);
+                stripe_t st; cfg_use(c);
+                if (stripe_make(&st, a[0].desc, c, data, len) == 0) {
+                    char *lst[32]; int cnt = 0; int tol = cfg_tol(c); for (int f = 0; f < n; f++) if (f >= (tol < c->k ? tol : c->k - 1) || tol == 0) lst[cnt++] = (char *)st.frag[f];
+                    char *out = NULL; uint64_t ol = 0; int rc = liberasurecode_decode(a[1].desc, lst, cnt, st.flen, 0, &out, &ol);
+                    if (rc != 0 || ol != len || memcmp(out, data, len)) mon_viol(PROP, "concurrent-create-cross-decode", "round %d: a stripe written through thread 0's instance, read through thread 1's with the first data fragments lost: rc=%d%s", round, rc, rc ? "" : ", wrong bytes");
+                    if (rc == 0) liberasurecode_decode_cleanup(a[1].desc, out);
+                    stripe_free(&st);
+                }
+                free(data);
+            }
+            for (int t = 0; t < NT; t++) if (a[t].desc > 0) liberasurecode_instance_destroy(a[t].desc);
+            mon_count("concurrent_first_create_rounds", 1); mon_count("evaluations", NT);
+            mon_distinct("nontrivial", mon_hash_u64((uint64_t)round, mon_hash_str(be_name(shapes[si].be), 4040)));
+            mon_end();
+        }
+    }
+}
+
 /* ================================================================ populations (C01 / C04 / C19): every history of creates
  * (twins included) and destroys (oldest, newest, middle) up to a length over a small pool of shapes, then longer random
  * ones; every live instance is used after every step (lec_population) */
@@ -1772,10 +1863,10 @@ int main(int argc, char **argv)
     if (need_isal && !isal_available()) { mon_logf("HARNESS reference libisal.so.2 not loadable"); mon_finish(); return 2; }
     lec_env_legacy(0);
     if (MO.noise) noise_start();
-    if (!strcmp(PROP, "C01")) { run_roundtrip(isal_available() ? 3 : 1); run_long_sequence(); run_instance_churn(); run_population(1); }
+    if (!strcmp(PROP, "C01")) { run_roundtrip(isal_available() ? 3 : 1); run_long_sequence(); run_instance_churn(); run_population(1); run_concurrent_first_creates(); }
     else if (!strcmp(PROP, "C02")) { run_nosilent(1); run_instance_churn(); }
     else if (!strcmp(PROP, "C03")) { run_reconstruct(1); run_direct_rs_plugin(); run_direct_backend_ops(1); run_long_sequence(); run_instance_churn(); }
-    else if (!strcmp(PROP, "C04")) { run_canonical(); run_long_sequence(); run_population(4); }
+    else if (!strcmp(PROP, "C04")) { run_canonical(); run_long_sequence(); run_population(4); run_concurrent_first_creates(); }
     else if (!strcmp(PROP, "C05")) run_xor();
     else if (!strcmp(PROP, "C06")) run_needed(1);
     else if (!strcmp(PROP, "C20")) run_force(isal_available() ? 3 : 1);
